@@ -3,9 +3,11 @@
 import copy
 import lvs_common as L
 
+from props import lvs_extract
+
 PROP = 'C13'
 TITLE = 'Ill-formed schemas and models are rejected; accepted models always terminate'
-LEAN_TARGETS = ['NdnProofs.Props.C13']
+LEAN_TARGETS = ['NdnProofs.Props.C13', 'NdnProofs.Props.C13Tables']
 THEOREMS = [
     'Ndn.C13.sanity_iff_documented', 'Ndn.C13.modelError_iff_not_sane', 'Ndn.C13.load_rejects_bad_node_id', 'Ndn.C13.accepted_sane',
     'Ndn.C13.match_terminates', 'Ndn.C13.match_stable', 'Ndn.C13.check_terminates',
@@ -16,6 +18,9 @@ THEOREMS = [
     'Ndn.C13.compile_static_sane', 'Ndn.C13.compile_sane_partial',
     'Ndn.C13.signCycle_shapeSelfSigning', 'Ndn.C13.compile_sane_src', 'Ndn.C13.static_sane_src',
     'Ndn.C13.mergedSigner_counterexample', 'Ndn.C13.mergedSigner_selfSigning',
+    # generated tables (lean/NdnGen) pinned to the model
+    'Ndn.C13.versions_table', 'Ndn.C13.binary_layout_table', 'Ndn.C13.binary_layout_is_shipped_schema',
+    'Ndn.C13.loader_rules_table', 'Ndn.C13.compiler_errors_table',
 ]
 PARTIAL = {
     'Ndn.C13.compile_sane_partial':
@@ -50,6 +55,7 @@ TRUSTED = [
     'C13: lark (text -> AST) and the pretty-printer of the schema generator; the Lean compiler model receives the AST the '
     'generator pretty-prints; Schema.WF (literals are non-empty encoded components, user functions have a name) is what the '
     'grammar guarantees and is a hypothesis of the compile_* sanity theorems',
+    "C13: lean/NdnGen/C13.lean is regenerated on every run by harness/props/lvs_extract.py (live constants of the imported modules; control-flow facts as normalised source text, ast.unparse) and pinned to the model by the *_table theorems (NdnProofs/Props/C13Tables.lean, closed by evaluation): VERSION / MIN_SUPPORTED_VERSION (the bounds of versionOK and the version the compiler model stamps), binary.TypeNumber and the field lists of the binary model classes (= the layout the Lean structures follow, and token for token the LvsModel schema shipped by C08's generated table), the ordered list of (exception class, guard, message) of every raise of _sanity_check, top_order and the Compiler methods, the except tuple of _gen_pattern_numbers, the exception classes the modules define. Trusted: the extractor; a pinned TEXT (a test, a call) ties the model to the source only as far as the doc comment of the theorem reads it correctly - the behaviour itself is still tied by the correspondence run",
 ]
 RULE = ('two streams. (a) schemas: generated well-formed schemas (references incl. the same rule twice, redefinitions, '
         'temporary rules/patterns, multi-set constraints, user functions, signing DAGs) and the same schemas with ONE static '
@@ -380,6 +386,11 @@ def _compile(schema):
     return compile_lvs(L.pp(schema))
 
 
+def extract(repo):
+    """lean/NdnGen/C13.lean: tables read from the Light VerSec sources (harness/props/lvs_extract.py)"""
+    return lvs_extract.generate_c13(repo)
+
+
 def cases(rng, tier):
     n_sch = 30 if tier == 'quick' else 45      # thorough enumerates EVERY position / corruption of each schema (~700 cases per schema)
     per_inj = 6 if tier == 'quick' else None
@@ -653,7 +664,8 @@ LEVEL_TEXT = ('Lean 4 theorems over a hand-written model of Checker._sanity_chec
               'emitted model is structurally sane and accepted iff there is no signing cycle among its nodes. Tied to the code on every run by differential '
               'execution: schema ASTs (well-formed and with one injected error) through the Lean compiler + loader vs compile_lvs + Checker '
               '(node pools compared), the compiled model against the real Checker.load/match/check on single-field corruptions of '
-              'compiled models, plus the property oracle (documented rules, step cap, static errors) on the implementation.')
+              'compiled models, plus the property oracle (documented rules, step cap, static errors) on the implementation.'
+              " VERSION / MIN_SUPPORTED_VERSION, the Type numbers and field order of the binary model classes (tied to C08's shipped LvsModel schema), the loader's ordered rule list, the compiler's static errors with their exception classes and the except tuple of _gen_pattern_numbers are regenerated from the source on every run (lean/NdnGen/C13.lean) and pinned by theorems closed by evaluation (NdnProofs/Props/C13Tables.lean).")
 LEVEL_NOTE = ('Proof is about the model; model=code is sampled. The schema-level half is proved for the compiler model (raises exactly on '
               'static errors, SemanticError only; output sane; accepted iff no node-level signing cycle; accepted if no shape of a name '
               'pattern is the shape of one of its own signers; a counterexample shows that rule-level acyclicity is not enough); the exact '
